@@ -52,8 +52,20 @@ def run_cases(fn, specs, seed=0, procs=None, chunksize=None):
     procs = procs or NPROC
     if procs <= 1 or len(specs) <= 2:
         _init()
-        for i in order:
-            out[i] = _call((i, specs[i]))[1]
+        # C libraries (SuperLU's "dgstrf info") write to fd 1 directly: keep the verdict stream clean
+        import sys
+        sys.stdout.flush()
+        saved = os.dup(1)
+        fd = os.open(os.devnull, os.O_WRONLY)
+        os.dup2(fd, 1)
+        try:
+            for i in order:
+                out[i] = _call((i, specs[i]))[1]
+        finally:
+            sys.stdout.flush()
+            os.dup2(saved, 1)
+            os.close(saved)
+            os.close(fd)
         return out
     if chunksize is None:
         chunksize = max(1, min(64, len(specs) // (procs * 8)))
